@@ -17,8 +17,8 @@ PLANS = {
             'thorough': [E('C10', 'plain', 200000, 3600), E('C10', 'asan', 5000, 900, seed_offset=500000)]},
     'C03': {'quick': [E('C03', 'plain', 1200, 80), E('C03', 'asan', 100, 40, seed_offset=500000, run_wall_s=120)],
             'thorough': [E('C03', 'plain', 60000, 3600), E('C03', 'asan', 3000, 1200, seed_offset=500000)]},
-    'C17': {'quick': [E('C17', 'asan', 700, 90, run_wall_s=150), E('C17', 'plain', 1500, 40, seed_offset=300000), E('C17PGN', 'asan', 3000, 30, seed_offset=500000)],
-            'thorough': [E('C17', 'asan', 50000, 3600, run_wall_s=300), E('C17', 'plain', 100000, 1800, seed_offset=300000), E('C17PGN', 'asan', 100000, 1200, seed_offset=500000, tier=1)]},
+    'C17': {'quick': [E('C17', 'asan', 700, 90, run_wall_s=150), E('C17', 'plain', 1500, 40, seed_offset=300000), E('C17PGN', 'asan', 3000, 30, seed_offset=500000, run_wall_s=15)],
+            'thorough': [E('C17', 'asan', 50000, 3600, run_wall_s=300), E('C17', 'plain', 100000, 1800, seed_offset=300000), E('C17PGN', 'asan', 100000, 1200, seed_offset=500000, tier=1, run_wall_s=30)]},
     'C18': {'quick': [E('C18', 'plain', 4000, 40), E('C18', 'asan', 500, 40, seed_offset=500000), E('C18S', 'plain', 400, 50, seed_offset=700000),
                       E('C18S', 'asan', 60, 30, seed_offset=800000, run_wall_s=120)],
             'thorough': [E('C18', 'plain', 100000, 1200, tier=1), E('C18', 'asan', 20000, 1200, seed_offset=500000, tier=1),
